@@ -737,6 +737,7 @@ def run(ctx):
     ctx.attempt(orphan_detection_rule, ctx)
     ctx.attempt(saddle_point_dispatch_rule, ctx)
     ctx.attempt(hinge_rule, ctx)
+    ctx.attempt(connection_dofs_rule, ctx)
     prescription_order_rule(ctx)
     from . import c03
 
@@ -943,3 +944,54 @@ def hinge_rule(ctx):
             r.ok(f"dim {dim}, free {free}: ties {want}")
         else:
             r.fail(f.qualname, f"hinge:dim{dim}:{'+'.join(free) or 'none'}", f.file, f.lineno, "Beam.add_connection_hinged", f"dim {dim}, free rotations {free}: the connection ties {tied}, expected {want}: rotations that should stay free are constrained (the hinge behaves as a fixed joint) or the reverse")
+
+
+def connection_dofs_rule(ctx):
+    """R4.14: 'multi-point (connection) constraints are satisfied exactly': Beam.add_connection(nodes, unknowns) ties, for every
+    listed unknown, the dofs of THAT unknown at the two nodes: dof(node, unknown) = node * dof_n + index of the unknown in the
+    simulation's own list -- whatever the position of the unknown in the caller's list.  Interpreted with the real
+    Bc_dofs_nodes and a recording LagrangeCondition for the unknown lists ['y', 'rz'], ['rz'], ['y', 'x'] (dof_n = 3)."""
+    from ..xarray import XArray
+
+    repo = ctx.repo
+    ci = repo.cls("EasyFEA.Simulations._beam.Beam")
+    f = ci.methods["add_connection"]
+    r = ctx.rule("R4.14", "Beam.add_connection ties dof(node, unknown) = node * dof_n + index(unknown in the simulation's unknowns) for unknown lists in any order / any subset", min_instances=3)
+    allu = ["x", "y", "rz"]
+    nodes = XArray((2,), [4, 7], "i")
+    for unknowns in (["y", "rz"], ["rz"], ["y", "x"]):
+        r.instance(fn=f.qualname)
+        got = []
+
+        def hook(fn, args, kwargs, got=got):
+            if getattr(fn, "name", "") == "LagrangeCondition" or (hasattr(fn, "qualname") and str(getattr(fn, "qualname", "")).endswith("LagrangeCondition")):
+                got.append((list(XArray.from_nested(args[2]).data), list(args[3])))
+                return SimpleNamespace(kind="lagrange")
+            fi = fn if isinstance(fn, FuncInfo) else getattr(fn, "finfo", None)
+            if isinstance(fi, FuncInfo) and fi.module.name.startswith("EasyFEA.Utilities"):
+                return Sink()
+            return NotImplemented
+
+        obj = XObj(ci, {"problemType": "beam", "Get_unknowns": lambda pt=None: list(allu), "Get_dof_n": lambda pt=None: 3, "_Check_dofs": lambda *a, **k: None,
+                        "_Bc_Add_Lagrange": lambda bc: None, "_Bc_Add_Display": lambda *a, **k: None, "_verbosity": False, "mesh": SimpleNamespace(Nn=10),
+                        ci.mro[-2].mangle("__Check_problemTypes") if False else "_Simu__Check_problemTypes": lambda *a, **k: None})
+        I = Interp(repo, extra_builtins={"Tic": lambda *a, **k: Sink()})
+        I.call_hook = hook
+        try:
+            I.call_function(f, [nodes, list(unknowns), "test"], self_obj=obj)
+        except XRaise as e:
+            r.fail(f.qualname, f"connection:{'+'.join(unknowns)}", f.file, f.lineno, "Beam.add_connection", f"unknowns {unknowns}: raises {e}")
+            continue
+        bad = None
+        if len(got) != len(unknowns):
+            bad = f"{len(got)} conditions for {len(unknowns)} unknowns"
+        else:
+            for (dofs, names), u in zip(got, unknowns):
+                want = [int(n) * 3 + allu.index(u) for n in nodes.data]
+                if [int(x) for x in dofs] != want or list(names) != [u]:
+                    bad = f"the condition on '{u}' ties the dofs {[int(x) for x in dofs]} (named {list(names)}); dof(node, '{u}') of nodes {list(nodes.data)} are {want}"
+                    break
+        if bad:
+            r.fail(f.qualname, f"connection:{'+'.join(unknowns)}", f.file, f.lineno, "Beam.add_connection", f"add_connection(nodes (4, 7), {unknowns}) with simulation unknowns {allu}: {bad}: the requested multi-point constraint is not the one applied (another dof is tied, the requested one stays free)")
+        else:
+            r.ok(f"unknowns {unknowns}: dof(node, unknown) by name")
